@@ -66,3 +66,41 @@ Theorem C14_only_reply_site_writes_stdout :
   gen_daemon_stdout_setup = ["_stdout = sys.stdout"; "sys.stdout = sys.stderr"] /\
   gen_daemon_print_sites = ["print(encoded, flush=True, file=_stdout)"].
 Proof. split; reflexivity. Qed.
+
+(* ---- histories: the daemon serves request lines one after the other; whatever each call of
+        process_input does internally (any exception raised anywhere inside it), after a whole
+        history the number of replies written equals the number of non-empty lines, and no call
+        ever ends by raising.  `true` in the history stands for an empty line. ---- *)
+Inductive serves : (bool * nat) -> list bool -> (bool * nat) -> Prop :=
+| serves_nil : forall s, serves s [] s
+| serves_cons : forall s e o s1 es s2,
+    exec (env_process_input e) s gen_process_input o s1 -> serves s1 es s2 -> serves s (e :: es) s2.
+
+Fixpoint non_empty (es : list bool) : nat :=
+  match es with [] => 0 | e :: r => (if e then 0 else 1) + non_empty r end.
+
+Theorem C14_history_replies :
+  forall es s s', serves s es s' -> snd s' = snd s + non_empty es.
+Proof.
+  induction es as [|e es IH]; intros s s' H; inversion H; subst; cbn [non_empty].
+  - lia.
+  - match goal with Hs : serves _ es _ |- _ => apply IH in Hs; rewrite Hs end.
+    match goal with Hx : exec (env_process_input e) _ _ _ _ |- _ =>
+      destruct e; [apply C14_empty_line_no_reply in Hx as [_ Hx] | apply C14_one_reply_per_request in Hx as [_ Hx]];
+      rewrite Hx; lia end.
+Qed.
+
+(* replies come in request order: after every prefix of the history the count is the number of
+   non-empty lines of that prefix (so the k-th reply is written while the k-th non-empty line is served) *)
+Theorem C14_history_prefix_order :
+  forall es1 es2 s s', serves s (es1 ++ es2) s' ->
+    exists sm, serves s es1 sm /\ serves sm es2 s' /\ snd sm = snd s + non_empty es1.
+Proof.
+  induction es1 as [|e es1 IH]; intros es2 s s' H; cbn [app] in H.
+  - exists s. split; [constructor|]. split; [exact H|cbn; lia].
+  - inversion H; subst.
+    match goal with Hs : serves _ (es1 ++ es2) _ |- _ => destruct (IH _ _ _ Hs) as (sm & A & B & C) end.
+    exists sm. split; [econstructor; eassumption|]. split; [exact B|].
+    assert (serves s (e :: es1) sm) as K by (econstructor; eassumption).
+    apply C14_history_replies in K. exact K.
+Qed.
